@@ -374,7 +374,7 @@ def run(chk):
     sticky_salts(chk)
 
     # --- TLC validates all events --------------------------------------------------------------------
-    wd = VERIF / "out" / "work" / "C06_trace_in"
+    wd = tlc.WORK / "C06_trace_in"
     wd.mkdir(parents=True, exist_ok=True)
     for e in evs:
         e.setdefault("requests", [])
